@@ -4,26 +4,33 @@
 //! hook to take over thread scheduling at the marked points (immediately before lock
 //! acquisitions of the in-memory filesystem).
 
+use std::sync::atomic::{AtomicBool, Ordering};
 use std::sync::{Arc, RwLock};
 
 /// The type of an installed hook
 pub type Hook = Arc<dyn Fn(&'static str) + Send + Sync>;
 
 static HOOK: RwLock<Option<Hook>> = RwLock::new(None);
+static INSTALLED: AtomicBool = AtomicBool::new(false);
 
 /// Installs a process-wide hook that is called at every yield point
 pub fn install(hook: Hook) {
     *HOOK.write().unwrap() = Some(hook);
+    INSTALLED.store(true, Ordering::SeqCst);
 }
 
 /// Removes the installed hook
 pub fn uninstall() {
+    INSTALLED.store(false, Ordering::SeqCst);
     *HOOK.write().unwrap() = None;
 }
 
 /// Marks a scheduling point; calls the installed hook, if any
 #[inline]
 pub fn yield_point(label: &'static str) {
+    if !INSTALLED.load(Ordering::Relaxed) {
+        return;
+    }
     let hook = HOOK.read().unwrap().clone();
     if let Some(hook) = hook {
         hook(label);
